@@ -50,6 +50,12 @@ fn exact(property: &'static str, name: &'static str, family: Family, rule: &'sta
 }
 
 pub fn c05() -> Check {
+    let mut c = c05_base();
+    c.scenarios.push(Box::new(crate::c05ops::SymmetricHashJoin));
+    c.cases_quick = 24_000;
+    c
+}
+fn c05_base() -> Check {
     exact("C05", "c05-joins", Family::Join, "runs: one generated join query (INNER/LEFT/RIGHT/FULL/LEFT SEMI/LEFT ANTI/RIGHT SEMI/RIGHT ANTI on k, s or (k,s), optional residual a.v<b.v, optional IS NOT DISTINCT FROM; non-equi joins; CROSS JOIN; NOT IN) over generated tables in 1-4 scripted partitions; the planner picks HashJoin (CollectLeft/Partitioned), SortMergeJoin, NestedLoopJoin, PiecewiseMergeJoin or CrossJoin from the generated configuration; a third of the runs under a bounded pool; result multiset compared with a nested-loop reference with SQL three-valued logic. distinct/non-trivial as for C02")
 }
 pub fn c06() -> Check {
